@@ -258,6 +258,7 @@ func (g *Gen) load(patterns []string) error {
 	// inject mirror contract files missing from the repo (so that the verif-tagged package is what we analyse)
 	cfg := &packages.Config{Mode: packages.LoadAllSyntax, Dir: g.repo, BuildFlags: []string{"-tags=verif"}, Overlay: overlay,
 		Env: goEnv()}
+	t0 := time.Now()
 	pkgs, err := packages.Load(cfg, patterns...)
 	if err != nil {
 		return err
@@ -274,8 +275,19 @@ func (g *Gen) load(patterns []string) error {
 	if nerr > 0 {
 		return fmt.Errorf("%d package load errors", nerr)
 	}
+	t1 := time.Now()
 	prog, _ := ssautil.AllPackages(pkgs, ssa.InstantiateGenerics)
-	prog.Build()
+	// build SSA bodies only for repository packages and the few dependencies whose leaf functions are inlined;
+	// other packages are built on demand (ensureBuilt)
+	for _, p := range prog.AllPackages() {
+		pp := p.Pkg.Path()
+		if strings.HasPrefix(pp, repoModule) || strings.HasPrefix(pp, "github.com/openfga/api") {
+			p.Build()
+		}
+	}
+	if os.Getenv("GOVC_TRACE") != "" {
+		fmt.Fprintf(os.Stderr, "packages.Load %.1fs, ssa %.1fs\n", t1.Sub(t0).Seconds(), time.Since(t1).Seconds())
+	}
 	g.prog = prog
 	g.pkgByPath = map[string]*ssa.Package{}
 	g.pkgsByName = map[string][]*ssa.Package{}
@@ -342,6 +354,14 @@ func (g *Gen) verifyFunc(ct *Contract) (fg *FnGen, err error) {
 		fg.assumeOld(t, p.Type())
 		fg.paramEnv[p.Name()] = CVal{T: t, Ty: p.Type()}
 		fg.inputs = append(fg.inputs, InputVar{Name: p.Name(), GoType: types.TypeString(p.Type(), nil), Term: t})
+	}
+	if len(ct.ParamNames) == len(fn.Params) {
+		// the names written in the contract header are aliases of the real parameter names
+		for i, n := range ct.ParamNames {
+			if n != "_" && n != "" {
+				fg.paramEnv[n] = fg.paramEnv[fn.Params[i].Name()]
+			}
+		}
 	}
 	for _, fv := range fn.FreeVars {
 		t := fg.val(fr, fv)
